@@ -3,16 +3,21 @@
 package consul
 
 import (
+	"bytes"
+	"context"
 	"fmt"
+	"io"
 	"time"
 
 	"github.com/hashicorp/go-hclog"
 	"github.com/hashicorp/raft"
 
+	"github.com/hashicorp/consul/agent/connect"
 	"github.com/hashicorp/consul/agent/connect/ca"
 	"github.com/hashicorp/consul/agent/consul/fsm"
 	"github.com/hashicorp/consul/agent/consul/state"
 	"github.com/hashicorp/consul/agent/structs"
+	raftstorage "github.com/hashicorp/consul/internal/storage/raft"
 )
 
 // VerifCADelegate12 is the caServerDelegate of the C12 harness: a real FSM / state store;
@@ -31,13 +36,21 @@ type VerifCADelegate12 struct {
 	// return (resp, err) without applying anything (apply failure, or a refused conditional
 	// write); the hook may also apply a competing write first and let the request lose its CAS.
 	PreCA func(req *structs.CARequest) (resp interface{}, err error, handled bool)
+	// Forward answers cross-datacenter RPCs of a secondary-datacenter manager
+	// (ConnectCA.Roots, ConnectCA.SignIntermediate); nil: there is no other datacenter.
+	Forward func(method, dc string, args interface{}, reply interface{}) error
 }
 
 func VerifNewCADelegate12(dc string, startIndex uint64) *VerifCADelegate12 {
+	// a real (empty) resource storage backend, so that the FSM can be snapshotted and restored
+	backend, err := raftstorage.NewBackend(nil, hclog.NewNullLogger())
+	if err != nil {
+		panic(err)
+	}
 	f := fsm.NewFromDeps(fsm.Deps{
 		Logger:         hclog.NewNullLogger(),
 		NewStateStore:  func() *state.Store { return state.NewStateStore(nil) },
-		StorageBackend: fsm.NullStorageBackend,
+		StorageBackend: backend,
 	})
 	return &VerifCADelegate12{FSM: f, Index: startIndex, DC: dc}
 }
@@ -95,6 +108,9 @@ func (d *VerifCADelegate12) ApplyCALeafRequest() (uint64, error) {
 }
 
 func (d *VerifCADelegate12) forwardDC(method, dc string, args interface{}, reply interface{}) error {
+	if d.Forward != nil {
+		return d.Forward(method, dc, args, reply)
+	}
 	return fmt.Errorf("verif: no other datacenter (%s to %s)", method, dc)
 }
 
@@ -135,4 +151,82 @@ func VerifProviderID12(c *CAManager) string {
 		return ""
 	}
 	return ca.VerifConsulProviderID12(c.provider)
+}
+
+// VerifNewCAManager12In builds the real CAManager of a server of datacenter dc whose primary
+// datacenter is primaryDC (dc != primaryDC: a secondary, which gets its signing certificate from
+// the primary through the delegate's Forward hook).
+func VerifNewCAManager12In(d *VerifCADelegate12, dc, primaryDC string, caConfig *structs.CAConfiguration) *CAManager {
+	conf := DefaultConfig()
+	conf.ConnectEnabled = true
+	conf.Datacenter = dc
+	conf.PrimaryDatacenter = primaryDC
+	conf.CAConfig = caConfig
+	return NewCAManager(d, nil, hclog.NewNullLogger(), conf)
+}
+
+// VerifSetProviderShim12 installs the provider newProvider returns for provider names other
+// than consul / vault / aws-pca (the hook the package's own tests use).
+func VerifSetProviderShim12(c *CAManager, p ca.Provider) { c.providerShim = p }
+
+// VerifGetCARoots12 is the body of the ConnectCA.Roots endpoint (Server.getCARoots uses nothing
+// of the server but the state store handed in).
+func VerifGetCARoots12(st *state.Store) (*structs.IndexedCARoots, error) {
+	return (&Server{}).getCARoots(nil, st)
+}
+
+// VerifSignIntermediate12 is the body of the ConnectCA.SignIntermediate endpoint after the
+// forwarding, primary-datacenter and operator:write checks.
+func VerifSignIntermediate12(c *CAManager, csrPEM string) (string, error) {
+	provider, _ := c.getCAProvider()
+	if provider == nil {
+		return "", fmt.Errorf("internal error: CA provider is nil")
+	}
+	csr, err := connect.ParseCSR(csrPEM)
+	if err != nil {
+		return "", err
+	}
+	return provider.SignIntermediate(csr)
+}
+
+// VerifSecondaryUpdateRoots12 is what secondaryCARootWatch does with every answer of the primary.
+func VerifSecondaryUpdateRoots12(c *CAManager, roots structs.IndexedCARoots) error {
+	return c.secondaryUpdateRoots(roots)
+}
+
+// VerifRenewIntermediateNow12 forces the intermediate renewal the periodic routine performs
+// after half of the certificate's life time.
+func VerifRenewIntermediateNow12(c *CAManager) error {
+	return c.renewIntermediateNow(context.Background())
+}
+
+// VerifProviderRootObj12 returns a copy of the root the manager appends intermediates from.
+func VerifProviderRootObj12(c *CAManager) *structs.CARoot {
+	c.providerLock.RLock()
+	defer c.providerLock.RUnlock()
+	if c.providerRoot == nil {
+		return nil
+	}
+	return c.providerRoot.Clone()
+}
+
+type verifSink12 struct{ bytes.Buffer }
+
+func (s *verifSink12) ID() string    { return "verif" }
+func (s *verifSink12) Cancel() error { return nil }
+func (s *verifSink12) Close() error  { return nil }
+
+// SnapshotRestore takes a snapshot of the FSM (as Raft does) and restores it into the same FSM:
+// the state store is replaced by one rebuilt from the persisted records only.
+func (d *VerifCADelegate12) SnapshotRestore() error {
+	snap, err := d.FSM.Snapshot()
+	if err != nil {
+		return err
+	}
+	defer snap.Release()
+	sink := &verifSink12{}
+	if err := snap.Persist(sink); err != nil {
+		return err
+	}
+	return d.FSM.Restore(io.NopCloser(bytes.NewReader(sink.Bytes())))
 }
